@@ -38,6 +38,16 @@ PROPS = {
     'C02': dict(quick=dict(profiles=[seq('C02', 160, 40)]), thorough=dict(profiles=[seq('C02', 3200, 100)])),
     'C03': dict(quick=dict(profiles=[seq('C03', 64, 24)]), thorough=dict(profiles=[seq('C03', 1600, 40)])),
     'C04': dict(quick=dict(profiles=[seq('C04', 160, 30)]), thorough=dict(profiles=[seq('C04', 3200, 60)])),
+    'C05': dict(quick=dict(profiles=[prof('crash', 48, 10)]), thorough=dict(profiles=[prof('crash', 320, 112)]),
+                rule="workloads of publish (with rollover), delete in reader and head segments (rebasing, emptying, tail), sync, close and reopen with "
+                     "Recover / eager migration; the FS tap snapshots the directory after every file-system mutation (crash image) and, for every append, "
+                     "torn variants (every byte in thorough); sampled images are crashed again inside their recovery (depth 2); each image is opened with "
+                     "the real Open(Recover) and observed (scan, NextOffset, Get of every offset, key/time lookups, Stat, recover-again, append+Check); a "
+                     "case is one image, distinct by its description line, non-trivial when the operation in flight is a publish or a delete"),
+    'C06': dict(quick=dict(profiles=[prof('crash', 48, 10)]), thorough=dict(profiles=[prof('crash', 320, 112)]),
+                rule="same workloads; the tap tracks the fsynced length of every file (renames carry it); after every operation power-loss images cut "
+                     "files back to lengths between fsynced and current (all files at once, each single file at sampled / every length, random vectors; "
+                     "8-byte headers atomic); a case is one loss image, non-trivial when at least one file is actually cut"),
     'C07': dict(quick=dict(profiles=[prof('damage', 32, 1)]), thorough=dict(profiles=[prof('damage', 640, 2)]),
                 rule="head segments of 1-6 random messages x 4 index configurations (V2; V1 for truncation): every truncation length, every "
                      "single-byte corruption position after the file header, zero/0xFF/random tails, every index damage; real Segment.Check/"
